@@ -205,6 +205,8 @@ struct VarInfo {
     live: bool,
     /// a `const` item: readable (whole or by field), never assigned
     is_const: bool,
+    /// anonymous records built by one literal (and copies of it) share a type
+    origin: usize,
 }
 
 fn vname(i: usize) -> String {
@@ -268,7 +270,8 @@ impl<'a> Gen<'a> {
     }
 
     fn new_var(&mut self, ty: T, anon: Option<Vec<(String, T)>>) -> usize {
-        self.vars.push(VarInfo { ty, anon, live: true, is_const: false });
+        let origin = self.vars.len();
+        self.vars.push(VarInfo { ty, anon, live: true, is_const: false, origin });
         self.vars.len() - 1
     }
 
@@ -449,7 +452,20 @@ impl<'a> Gen<'a> {
             }
             T::Opt(_) | T::Res(..) | T::Verdict(..) => {
                 let vs = self.variants_of(t).unwrap();
-                let (c, _, tag, ts) = self.p.pick(&vs).clone();
+                let (mut c, _, tag, ts) = self.p.pick(&vs).clone();
+                if matches!(t, T::Verdict(..)) && self.p.chance(1, 2) {
+                    // built by `accept e` / `reject e` in a helper: the value
+                    // travels through the function's return slot
+                    let k = self.helpers.len();
+                    let kw = if tag == 0 { "accept" } else { "reject" };
+                    self.helpers.push(format!(
+                        "fn verdict_{k}(x: {}) -> {} {{ {kw} x }}",
+                        ts[0].src(&self.env),
+                        t.src(&self.env)
+                    ));
+                    self.kinds.insert("accept-reject-return");
+                    c = format!("verdict_{k}");
+                }
                 E::Enm(c, tag, ts.iter().map(|ft| self.build(ft, depth.saturating_sub(1))).collect())
             }
             T::Named(..) => {
@@ -570,6 +586,7 @@ impl<'a> Gen<'a> {
             let t = self.vars[v].ty.clone();
             if let Some(fs) = self.vars[v].anon.clone() {
                 let w = self.new_var(t, Some(fs));
+                self.vars[w].origin = self.vars[v].origin;
                 out.push(S::Let(w, None, E::Var(v)));
                 self.kinds.insert("copy-anon");
                 return;
@@ -675,6 +692,7 @@ impl<'a> Gen<'a> {
                 return;
             }
             let (scrut, t) = self.p.pick(&cands).clone();
+            let scrut = if self.p.chance(1, 5) { self.pass(&t, scrut) } else { scrut };
             let vs = self.variants_of(&t).unwrap();
             let mut arms = vec![];
             let use_wild = self.p.chance(1, 2) && vs.len() > 1;
@@ -794,6 +812,16 @@ impl<'a> Gen<'a> {
         } else if r < 96 {
             // == / != between two values of one type
             if self.vars[v].anon.is_some() {
+                // anonymous records: only values of the same literal's type
+                let same: Vec<usize> = self
+                    .live_vars()
+                    .into_iter()
+                    .filter(|w| self.vars[*w].anon.is_some() && self.vars[*w].origin == self.vars[v].origin)
+                    .collect();
+                let w = *self.p.pick(&same);
+                let neg = self.p.chance(1, 3);
+                out.push(S::Emit(E::Eq(neg, Box::new(E::Var(v)), Box::new(E::Var(w))), T::Bool));
+                self.kinds.insert("eq-anonymous");
                 return;
             }
             let t = self.vars[v].ty.clone();
